@@ -5,6 +5,7 @@ CHECK_DEADLOCK FALSE
 CONSTANTS
  HonorsHost = FALSE
  SchemeBound = TRUE
+ FoldCase = FALSE
  StripOnRedirect = TRUE
  MaxFaults = 3
  Confs <- QuickGenConfs
@@ -13,3 +14,4 @@ CONSTANTS
  RedirTo <- AllRedir
  TokReplies <- AllTok
  ForeignRealms <- TaRealm
+ LocTo <- AllLoc
